@@ -79,7 +79,8 @@ Record tback := {
 Record ttcp := {
   tt_port : N;
   tt_hosts : list (string * string);      (* hostname, Backend.String() *)
-  tt_default : option string              (* DefaultHost with a non-empty backend *)
+  tt_default : option string;             (* DefaultHost with a non-empty backend *)
+  tt_tls : bool                           (* TCPServicePort.HasTLS(): len(TLS) > 0 *)
 }.
 
 Record tbind := { ab_name : string; ab_backend : string }.  (* AuthBackendName, Backend.String() *)
@@ -98,6 +99,7 @@ Record tstate := {
   ts_binds : list tbind;                  (* Frontend.AuthProxy.BindList *)
   ts_fmaps : bool;                        (* Frontend.Maps != nil *)
   ts_httpsname : string;                  (* Frontend.Name *)
+  ts_crtlist : string;                    (* Frontend.CrtListFile (without the filesystem prefix) *)
   ts_acme : bool;                         (* Global.Acme.Enabled *)
   ts_modsec : bool;                       (* Global.ModSecurity.Endpoints not empty *)
   ts_prom : bool                          (* Global.Prometheus.Port != 0 *)
@@ -261,6 +263,24 @@ Definition references (st : tstate) : list ref :=
   tls_front_refs st ++
   http_front_refs st ++
   https_front_refs st.
+
+(* ------------------------------------------------------------------ crt-list files *)
+
+(* the only FILE references transcribed: the crt-list of the binds.
+     frontend _front_tcp_<port>: bind ... {{ if $tcpport.HasTLS }} ssl crt-list
+        <prefix>/etc/haproxy/crtlist_tcp_<port>.list    written by instance.writeCrtLists for
+        every port with len(TLS) > 0
+     frontend <$frontend.Name>: bind ... crt-list {{ $frontend.CrtListFile }}   written with the
+        frontend maps (WriteFrontendMaps) *)
+Definition tcp_crtlist (t : ttcp) : string := ("/etc/haproxy/crtlist_tcp_" ++ decN (tt_port t) ++ ".list")%string.
+
+Definition file_refs (st : tstate) : list (string * string) :=
+  flat_map (fun t => if tt_tls t then [(tcpfront_name t, tcp_crtlist t)] else []) (ts_tcp st) ++
+  (if ts_fmaps st then [(ts_httpsname st, ts_crtlist st)] else []).
+
+Definition written_files (st : tstate) : list string :=
+  flat_map (fun t => if tt_tls t then [tcp_crtlist t] else []) (ts_tcp st) ++
+  (if ts_fmaps st then [ts_crtlist st] else []).
 
 (* ------------------------------------------------------------------ the invariants *)
 
